@@ -449,20 +449,16 @@ func evaluateCollectionExpression(expression *grammar.CollectionExpression, datu
 				if expression.NameBinding.Default != "" {
 					innerOpt = append(innerOpt, WithLocalVariable(expression.NameBinding.Default, nil, key.Interface()))
 				}
-				if expression.NameBinding.Index != "" {
-					innerOpt = append(innerOpt, WithLocalVariable(expression.NameBinding.Index, nil, key.Interface()))
-				}
 				if expression.NameBinding.Value != "" {
 					path := make([]string, 0, len(expression.Selector.Path)+1)
 					path = append(path, expression.Selector.Path...)
 					path = append(path, key.Interface().(string))
 					innerOpt = append(innerOpt, WithLocalVariable(expression.NameBinding.Value, path, nil))
 				}
-			} else {
 				if expression.NameBinding.Index != "" {
-					innerOpt = append(innerOpt, WithLocalVariable(expression.NameBinding.Index, nil, i))
+					innerOpt = append(innerOpt, WithLocalVariable(expression.NameBinding.Index, nil, key.Interface()))
 				}
-
+			} else {
 				pathValue := make([]string, 0, len(expression.Selector.Path)+1)
 				pathValue = append(pathValue, expression.Selector.Path...)
 				pathValue = append(pathValue, fmt.Sprintf("%d", i))
@@ -471,6 +467,9 @@ func evaluateCollectionExpression(expression *grammar.CollectionExpression, datu
 				}
 				if expression.NameBinding.Value != "" {
 					innerOpt = append(innerOpt, WithLocalVariable(expression.NameBinding.Value, pathValue, nil))
+				}
+				if expression.NameBinding.Index != "" {
+					innerOpt = append(innerOpt, WithLocalVariable(expression.NameBinding.Index, nil, i))
 				}
 			}
 
